@@ -122,6 +122,15 @@ Theorem Conc_online_exclusion_necessary :
 Proof. exact conc_online_put_double_count. Qed.
 Print Assumptions Conc_online_exclusion_necessary.
 
+(* ... and what it does to later calls: freeing everything afterwards, the last free of a HELD block panics in Tree::put's
+   counter assertion (outside C03's quantifier, which has no concurrent tree changes; part of finding D16) *)
+Theorem Conc_online_race_later_free_panics :
+  upanicked s_after = [STreeFree] /\
+  nth_error (m2_pool s_after) 0 = Some (UPanic STreeFree (UPut 128 {| r_order := 7%nat; r_class := 0; r_local := None |})) /\
+  In (128, 7%nat) (m2_held s_end).
+Proof. exact conc_online_put_later_free_panics. Qed.
+Print Assumptions Conc_online_race_later_free_panics.
+
 (* C01 through the upper API with ANY tree change in the schedule, change_tree(.., Online) included (UpperConcWeak.v).
    The accounting invariant cannot survive an Online racing a put (above); the safety of the blocks handed out does:
    the upper layer is only a client of the lower allocator, it calls Lower::get / get_at with rows / frames in range
